@@ -92,6 +92,14 @@ def source_phase(ctx):
     vlib.proof_phase_extra(ctx, 'Properties_phase_source')
 
 
+# slot allocation in a multiple-inheritance lattice: translators/slots.py -> Gen/GenSlot.v -> Properties_slot_source
+SOURCE_SLOT = ('C01', 'C04')
+
+
+def source_slot(ctx):
+    vlib.proof_phase_extra(ctx, 'Properties_slot_source')
+
+
 def main(pid, assumptions, level='proof', explanation=None):
     ctx = vlib.Ctx(pid)
     if ctx.replay:
@@ -114,6 +122,8 @@ def main(pid, assumptions, level='proof', explanation=None):
         source_rep(ctx)
     if pid in SOURCE_PHASE:
         source_phase(ctx)
+    if pid in SOURCE_SLOT:
+        source_slot(ctx)
     res = coresuite.dispatch_suite(ctx.tier, ctx.seed)
     cov = coresuite.summarize(ctx, res, pid)
     if pid == 'C03':
